@@ -227,6 +227,26 @@ def check(chk):
               'the callback runs (line %s) on a path that has not incremented in_flight; both pools\' callbacks call return_connection, so in_flight goes negative and the '
               'pool later hands out more streams than the connection has' % sorted(n.line() for n in early))
 
+    # ---- parking after shutdown: shutdown() sweeps _trash once; whatever is added later is never closed
+    chk.rule('C12.park', 'a connection is added to _trash only under the pool lock on a path that knows the pool is not shut down')
+    n_park = 0
+    for q_, f_ in pool.functions():
+        adds_ = [c_ for c_ in body_walk(f_) if isinstance(c_, ast.Call) and src(c_.func) == 'self._trash.add']
+        if not adds_:
+            continue
+        g_, fl_ = CFG(f_), None
+        fl_ = Flow(g_, 0, lambda n, c: c)
+        for c_ in adds_:
+            n_park += 1
+            nd = [n for n in g_.stmt_nodes() if n.kind == 'stmt' and any(x is c_ for x in ast.walk(n.ast))]
+            locked = holds(c_, ('self',), '_lock')
+            live = bool(nd) and all(fa.knows('self.is_shutdown') is False for fa, _c in fl_.at(nd[0])) and bool(list(fl_.at(nd[0])))
+            chk.judge(locked and live, 'C12.park', c_, '%s: _trash.add only while not shut down, under the pool lock' % q_,
+                      'a connection with requests in flight is parked in _trash without looking at is_shutdown: when shutdown() ran just before (it sweeps the trash once) '
+                      'the connection is never closed')
+    if n_park < 2:
+        raise AnalysisError('C12.park: _trash.add sites not found (%d)' % n_park)
+
     # ---- the heartbeat thread: a plain return_connection (which decrements) needs the heartbeat's own increment before it
     hbr = chk.repo.mod(CONN).func('ConnectionHeartbeat.run')
     ghb = CFG(hbr)
